@@ -59,6 +59,10 @@ func TestVerifC01VisitedSetSharedByAndOperands(t *testing.T) {
 	if err := reg.Config(ctx).Set(config.KeyNamespaces, cfg); err != nil {
 		t.Fatal(err)
 	}
+	// the depth limit must not be what decides the answer
+	if err := reg.Config(ctx).Set(config.KeyLimitMaxReadDepth, 100); err != nil {
+		t.Fatal(err)
+	}
 	alice := "alice"
 	staff := &ketoapi.SubjectSet{Namespace: "Group", Object: "staff", Relation: "members"}
 	relationtuple.MapAndWriteTuples(t, reg,
